@@ -12,6 +12,26 @@ type PropCfg struct {
 	Unverified []string         // named parts of the property that are not decided here
 	Bounded   []BoundedPart
 	re, obre  *regexp.Regexp
+	Mirrors   []Mirror
+}
+
+// Mirror: package Pkg contains byte-identical copies of Files of package Of. While that holds
+// (checked on every run) the contracts and therefore the verification conditions are the same
+// text, and only Of is verified; as soon as a file differs both packages are verified.
+type Mirror struct {
+	Pkg, Of string
+	Files   []string
+}
+
+var basictlMirror = []Mirror{{Pkg: "./internal/vkgo/pkg/basictl", Of: "./pkg/basictl", Files: []string{"basictl.go", "basictl2.go", "verif_contracts.go"}}}
+
+func init() {
+	for _, p := range props {
+		switch p.ID {
+		case "C33", "C02", "C08", "C13":
+			p.Mirrors = basictlMirror
+		}
+	}
 }
 
 type BoundedPart struct {
